@@ -64,7 +64,12 @@ def check(prog: Program, run: Run) -> None:
     _defaults(prog, run)
     _subparam_order(prog, run)
     _accessors(prog, run)
-    common.g1_literal_attrs(prog, run, "C15.G1", ["odxtools/diaglayers/hierarchyelement.py"])
+    # (HierarchyElement.protocols reads getattr(self, "parent_refs", []) too and thereby skips
+    # the parents of a PROTOCOL layer; no property ranges over .protocols, so only the helper
+    # of the comparam merge is held to this)
+    common.g1_literal_attrs(prog, run, "C15.G1", ["odxtools/diaglayers/hierarchyelement.py"],
+                            forwarded_in=("_get_parent_refs_sorted_by_priority",
+                                          "_compute_available_commmunication_parameters"))
 
 
 def _merge(prog: Program, run: Run) -> None:
@@ -256,7 +261,12 @@ def _eval_missing(test: ast.AST, var: str, marker) -> Optional[bool]:
         return None
     try:
         code = compile(ast.Expression(body=_subst_var(test, var)), "<t>", "eval")
-        return bool(eval(code, {"__builtins__": {}}, {"_V": marker}))  # constant folding only
+        safe = {"isinstance": isinstance, "str": str, "len": len, "bool": bool, "int": int,
+                "float": float, "bytes": bytes, "list": list}
+        # constant folding only: the test mentions nothing but the variable and these names
+        if names - {var.split(".")[0]} - set(safe):
+            return None
+        return bool(eval(code, {"__builtins__": safe}, {"_V": marker}))
     except Exception:
         return None
 
